@@ -217,7 +217,7 @@ static Result execute(const Toks &t) {
 
 static void generate(Rng &rng, const Opts &o, std::vector<std::string> &lines) {
     const int W = std::min(g_wsize, MAXNP);
-    long N = o.cases > 0 ? o.cases : (o.thorough() ? 600 : 60);
+    long N = o.cases > 0 ? o.cases : (o.thorough() ? 800 : 160);
     for (long k = 0; k < N; ++k) {
         int np = (k < 8 * 6) ? (int)(k % 8) + 1 : (int)rng.range(1, W); if (np > W) np = W;
         int combo = (int)((k / 8) % 6);
@@ -227,7 +227,7 @@ static void generate(Rng &rng, const Opts &o, std::vector<std::string> &lines) {
         Line l; l << "msolve" << combo << rng.coin(); lp(l, p); l << A << gen_vec(rng, A.n, true);
         lines.push_back(l.get());
     }
-    for (long k = 0; k < (o.thorough() ? 200 : 30); ++k) {
+    for (long k = 0; k < (o.thorough() ? 300 : 50); ++k) {
         int np = (int)rng.range(1, W); long n = rng.range(1, 25);
         Mat A = gen_spd(rng, std::max<long>(n, 2), (int)rng.range(0, 2), 4);
         Line l; l << "mdirect"; lp(l, rand_part(rng, A.n, np)); l << A << gen_vec(rng, A.n, true);
